@@ -85,7 +85,7 @@ def _at_for(c, want_s):
 
 def gen_output(rng, kind, at_us):
     o = {'kind': kind, 'at_us': at_us,
-         'timeout': rng.choice([0, 1, 2, 10, 3600, 86400, 86400, 10 ** 9]),
+         'timeout': rng.choice([0, 1, 2, 10, 3600, 86400, 86400, 10 ** 9, -1, -60]),
          'preimage': rng.bytes(rng.choice([1, 2, 16, 20, 32, 33, 64])).hex(),
          'use_digest': rng.chance(1, 3),
          'allowed': rng.choice(['00', '00', '01', '03', 'ff', '06', '80', 'a0']),
@@ -306,6 +306,8 @@ def model(out, created, keys, items, t, reads, thr):
     deadline = created + out['timeout']
     recv, refund = keys['R'][1], keys['S'][1]
     timeok = and3(t >= deadline, slack3(t, reads, thr) if t >= deadline else False)
+    if deadline < 0:
+        timeok = None       # (a deadline before the epoch cannot be written as a constraint)
     pre = bytes.fromhex(out['preimage'])
     if k.startswith('htlc'):
         need = 3 if k.startswith('htlc2') else 2
